@@ -39,7 +39,7 @@ PROPS = {
                  "in every ignorable position (padding, reserved/RFFU bits, address first octet, ERROR-CODE upper "
                  "21 bits, CHANGE-REQUEST reserved bits) decode, with validation, to the same logical message. "
                  "Exhaustive: 16384 (method,class) pairs, 65536 MessageType::from inputs, 400 error codes; "
-                 "XOR: each transaction-id byte flipped separately. RFC 5769 / RFC 8489 B.1 vectors are "
+                 "XOR: each transaction-id byte flipped separately; encoder contexts with custom padding byte must equal the reference with that byte in padding positions only (incl. between PASSWORD-ALGORITHMS entries) and random padding must not change the decoded content; every decoded message is re-encoded and must give the canonical bytes. RFC 5769 / RFC 8489 B.1 vectors are "
                  "reproduced byte-for-byte by the reference first. Non-trivial = >=1 attribute; distinct = hash "
                  "of reference bytes."),
         "assumptions": [STABLE,
@@ -47,7 +47,7 @@ PROPS = {
                         "reference follows the library on encode)",
                         "RESPONSE-PORT is encoded with attribute length 2 (RFC 5780 wording ambiguous)"],
         "min_counters": {"types.pairs": 16384, "u16.values": 65536, "vectors.reference-reproduces": 5,
-                         "backward.noise": 1000, "xor.txid-byte-flips": 1000},
+                         "backward.noise": 1000, "xor.txid-byte-flips": 1000, "reencode.compared": 10000, "padding.custom": 1000, "padding.random": 500},
     },
     "C09": {
         "title": "Decoding admits attributes after integrity/FINGERPRINT only per the RFC rule",
